@@ -23,7 +23,7 @@ SKIP_METHODS = {("aix", "open_files")}       # drives /usr/bin/procfiles through
 FALLBACK = {("windows", "cpu_times"): "proc_times", ("windows", "create_time"): "proc_times",
             ("windows", "memory_info"): "proc_memory_info", ("windows", "io_counters"): "proc_io_counters",
             ("windows", "num_handles"): "proc_num_handles", ("sunos", "uids"): "proc_cred", ("sunos", "gids"): "proc_cred"}
-TRAIL = re.compile(r"^(?:/dev/tty|/f|/g|C:/\\f|C:/\\g)(-?\d+)$")
+TRAIL = re.compile(r"^(?:/dev/tty|/f|/g|C:/\\f|C:/\\g|C:/\\m|arg|nm|K|V|p|n)(-?\d+)$")
 
 
 def errs_of(plat):
@@ -91,6 +91,13 @@ def canon_value(r):
         first = r[0]
         return {"shape": "ListOf", "type": type(first).__name__,
                 "fields": [[f, canon_scalar(getattr(first, f))] for f in first._fields]}
+    if isinstance(r, list) and r and all(isinstance(x, str) for x in r):       # cmdline
+        return {"shape": "Tuple", "type": "list", "fields": [[str(i), canon_scalar(x)] for i, x in enumerate(r)]}
+    if isinstance(r, dict) and r:                                              # environ
+        k = sorted(r)[0]
+        return {"shape": "Tuple", "type": "dict", "fields": [["key", canon_scalar(k)], ["value", canon_scalar(r[k])]]}
+    if isinstance(r, list) and r and isinstance(r[0], tuple):                  # memory_maps: plain tuples
+        return {"shape": "ListOf", "type": "tuple", "fields": [[str(i), canon_scalar(x)] for i, x in enumerate(r[0])]}
     if isinstance(r, (list, dict, tuple, set)):
         return {"shape": "Scalar", "type": "", "fields": [["", {"s": "<%s>" % type(r).__name__}]]}
     return {"shape": "Scalar", "type": "", "fields": [["", canon_scalar(r)]]}
@@ -106,6 +113,15 @@ def sentinel_table(plat):
     for i in range(6):
         if i < 3:
             t[S.BASE["proc_threads"] + i] = ("proc_threads", i)
+    for fn in S.ROWFNS:
+        for i in range(7):
+            t[S.BASE[fn] + i] = (fn, i)
+    t[S.BASE["proc_name_and_args"] + 10] = ("proc_name_and_args", 1)
+    t[S.BASE["proc_name_and_args"] + 11] = ("proc_name_and_args", 1)
+    for i in range(2):
+        t[S.BASE["query_process_thread"] + i] = ("query_process_thread", i)
+    t[S.BASE["os.listdir"]] = ("os.listdir", 0)
+    t[S.BASE["os.readlink"]] = ("os.readlink", 0)
     for i in range(2):
         t[S.BASE["proc_open_files"] + i] = ("proc_open_files", i)
         t[S.BASE["proc_getrlimit"] + i] = ("proc_getrlimit", i)
@@ -163,6 +179,26 @@ def probe_usage(layer, meth, variant=""):
                     break
             if changed:
                 deps.append([fn, i])
+    # row natives (strings, enums, address pairs): which slots does each output field follow?
+    for fn in S.ROWFNS:
+        if fn not in layer.world.calls:
+            continue
+        kbase, rbase = layer.run(meth, **kw)
+        n = len(layer.row(fn))
+        follows = [[] for _ in fields]
+        for i in range(n):
+            k2, r2 = layer.run(meth, rowalt={fn: i}, **kw)
+            if k2 != "val":
+                continue
+            cv2 = canon_value(r2)
+            if cv2["shape"] != cv["shape"] or len(cv2["fields"]) != len(fields):
+                continue
+            for j, ((_n1, v1), (_n2, v2)) in enumerate(zip(cv["fields"], cv2["fields"])):
+                if json.dumps(v1, sort_keys=True) != json.dumps(v2, sort_keys=True):
+                    follows[j].append(i)
+        for j, (nm, src) in enumerate(fields):
+            if src[0] in ("Unknown", "Const") and follows[j]:
+                fields[j] = [nm, ["Fun", fn, follows[j]]]
     return {"plat": plat, "meth": meth, "variant": variant, "shape": cv["shape"], "type": cv["type"],
             "fields": fields, "deps": deps}
 
@@ -238,6 +274,8 @@ NIC_PROBES = [
     (0, "10.1.2.3", "0.0.0.0", None), (0, "172.16.5.9", "255.255.240.0", None), (0, "172.16.5.9", None, None),
     (0, "172.16.5.9", "255.0.255.0", None), (0, "172.16.5.9", "0.0.0.255", None), (0, "1.2.3.4", "255.255.255.0", "9.9.9.9"),
     (1, "fe80::1", "ffff:ffff:ffff:ffff::", None), (1, "2001:db8::5", "ffff:ffff::", None), (1, "::1", None, None),
+    (0, "192.168.1.7", "24", None), (0, "10.9.8.7", "0", None), (0, "10.9.8.7", "33", None),
+    (1, "fe80::1", "64", None), (1, "2001:db8::5", "128", None), (1, "2001:db8::5", "0", None), (1, "2001:db8::5", "129", None),
     (2, "aa:bb:cc:dd:ee:ff", None, None), (2, "aa:bb", None, None), (2, "aa", None, None), (2, "aa:bb:cc:dd:ee", None, None),
 ]
 
@@ -272,7 +310,7 @@ def run_nic(fe, fam, addr, mask, bcast):
 
 def probe_all(impl_dir, workdir):
     out = {"slot_maps": [], "usage": [], "ladder": [], "sites": {}, "names": [], "nic": [], "methods": {},
-           "status": [], "sladder": [], "pairs": [], "retry": [], "wait": []}
+           "status": [], "sladder": [], "pairs": [], "retry": [], "wait": [], "sysfields": []}
     for plat in S.PLATS:
         layer = S.Layer(plat, impl_dir)
         for m in MAPS[plat]:
@@ -326,6 +364,12 @@ def probe_all(impl_dir, workdir):
                              "dir": sorted(n for n in dir(pkg) if not n.startswith("_") or n in pkg.__all__),
                              "methods": sorted(n for n in dir(pkg.Process) if not n.startswith("_")),
                              "unresolved": sorted(n for n in set(pkg.__all__) if not hasattr(pkg, n))})
+        plat_mod, common = pkg._psplatform, pkg._common
+        for fn, cls in (("cpu_times", plat_mod.scputimes), ("virtual_memory", plat_mod.svmem), ("swap_memory", common.sswap),
+                        ("disk_io_counters", getattr(plat_mod, "sdiskio", common.sdiskio)), ("net_io_counters", common.snetio)):
+            if not callable(getattr(pkg, fn, None)):
+                raise RuntimeError("C20 probe: front end of %s has no %s()" % (plat, fn))
+            out["sysfields"].append({"plat": plat, "fn": fn, "type": cls.__name__, "fields": list(cls._fields)})
         for fam, addr, mask, bc in NIC_PROBES:
             r = run_nic(fe, fam, addr, mask, bc)
             out["nic"].append({"plat": plat, "fam": fam, "addr": addr, "mask": mask, "bcast": bc, "out": r})
@@ -348,6 +392,8 @@ def src_coq(s):
         return "(SConst %s)" % zlit(s[1])
     if s[0] == "None":
         return "SNone"
+    if s[0] == "Fun":
+        return "(SFun %s [%s])" % (qs(s[1]), "; ".join(zlit(i) for i in s[2]))
     return "SUnknown"
 
 
@@ -359,10 +405,18 @@ def opt(v):
     return "None" if v is None else "(Some %s)" % zlit(v)
 
 
+def mask_coq(fam, mask):
+    if mask is None or fam not in (0, 1):
+        return "MNone"
+    if mask.isdigit():
+        return "(MPrefix %d)" % int(mask)
+    return "(MAddr %s)" % zlit(ip_int(fam, mask))
+
+
 def nic_in_coq(plat, fam, addr, mask, bcast):
     a = addr.replace(":", "-") if (fam == 2 and plat == "windows") else addr
     return "(Build_nicrow %d %s %s %s %s)" % (fam, by(a), zlit(ip_int(fam, addr) if fam in (0, 1) else 0),
-                                              opt(ip_int(fam, mask) if fam in (0, 1) else None),
+                                              mask_coq(fam, mask),
                                               opt(ip_int(fam, bcast) if fam in (0, 1) else None))
 
 
@@ -429,6 +483,10 @@ def emit_coq(data):
     L.append("Definition wait_rows : list wrow := [")
     L.append(";\n".join("  Build_wrow %s %s %s (%s)" % (COQ_PLAT[r["plat"]], r["scen"], st_coq[r["state"]], _outs_coq([r["out"]]))
                         for r in data["wait"]))
+    L.append("].\n")
+    L.append("Definition sysfield_rows : list sfrow := [")
+    L.append(";\n".join("  Build_sfrow %s %s %s [%s]" % (COQ_PLAT[r["plat"]], qs(r["fn"]), qs(r["type"]), "; ".join(qs(f) for f in r["fields"]))
+                        for r in data["sysfields"]))
     L.append("].\n")
     L.append("Definition names_rows : list names := [")
     L.append(";\n".join("  Build_names %s [%s] [%s] [%s]" % (
